@@ -30,7 +30,7 @@ ASSUMPTIONS = [
     "pyairtouch/comms/udp.py is not reachable from the public API and is not executed",
 ]
 PROBES = ["c18.no_answer_three_requests", "c18.answer_first_interval", "c18.answer_second_interval", "c18.duplicate", "c18.comma_in_name",
-          "c18.invalid_utf8", "c18.wrong_parts", "c18.echo", "c18.late_datagram", "c18.unicast", "c18.both_generations", "c18.at_request_instant"]
+          "c18.invalid_utf8", "c18.wrong_parts", "c18.echo", "c18.late_datagram", "c18.unicast", "c18.both_generations", "c18.at_request_instant", "c18.consoles_sharing_fields"]
 
 REQ = {49004: b"HF-A11ASSISTHREAD", 49005: b"::REQUEST-POLYAIRE-AIRTOUCH-DEVICE-INFO:;"}
 
@@ -39,15 +39,29 @@ def budget(tier: str) -> int:
     return 8000 if tier == "quick" else 600_000
 
 
-def _valid(rng, port: int):
+def _valid(rng, port: int, like: dict | None = None):
     ip = f"192.168.{rng.randint(0, 3)}.{rng.randint(2, 250)}"
     serial = rng.choice(["AA:BB:CC:DD:EE:0%d" % rng.randint(0, 9), "console-%d" % rng.randint(1, 99), ""])
     ident = str(rng.randint(10000, 99999999))
+    name5 = rng.choice(["Home", "Beach House", "Casa, Sur", "a,b,c", "Büro", "客厅", "", "x" * 40])
+    if like is not None:
+        # a different console that shares all but one or two fields with another one (same id on two wall consoles,
+        # same name, same serial text, same address after a DHCP change): not a duplicate
+        keep = rng.sample(["host", "serial", "id", "name"], rng.choice([2, 3, 3]))
+        if "name" in keep and port == 49004:
+            keep = [k for k in keep if k != "name"] or ["id"]
+        ip = like["host"] if "host" in keep else ip
+        serial = like["serial"] if "serial" in keep else serial + "'"
+        ident = like["id"] if "id" in keep else ident
+        name5 = like["name"] if "name" in keep and port == 49005 else name5
+        if port == 49004:
+            return f"{ip},{serial},AirTouch4,{ident}".encode(), {"host": ip, "serial": serial, "id": ident, "name": "AirTouch 4", "model": "AIRTOUCH_4", "port": 9004}
+        return f"{ip},{serial},AirTouch5,{ident},{name5}".encode("utf-8"), {"host": ip, "serial": serial, "id": ident, "name": name5, "model": "AIRTOUCH_5", "port": 9005}
     if port == 49004:
         if rng.random() < 0.15:
             ident += "," + rng.choice(["x", "7"])
         return f"{ip},{serial},AirTouch4,{ident}".encode(), {"host": ip, "serial": serial, "id": ident, "name": "AirTouch 4", "model": "AIRTOUCH_4", "port": 9004}
-    name = rng.choice(["Home", "Beach House", "Casa, Sur", "a,b,c", "Büro", "客厅", "", "x" * 40])
+    name = name5
     return f"{ip},{serial},AirTouch5,{ident},{name}".encode("utf-8"), {"host": ip, "serial": serial, "id": ident, "name": name, "model": "AIRTOUCH_5", "port": 9005}
 
 
@@ -78,8 +92,10 @@ def generate(rng, index: int, tier: str) -> dict:
     responders = []
     for port in (49004, 49005):
         n = rng.choice([0, 0, 1, 1, 2, 4])
+        prev = None
         for _ in range(n):
-            data, _exp = _valid(rng, port)
+            data, _exp = _valid(rng, port, like=prev if (prev is not None and rng.random() < 0.5) else None)
+            prev = _exp
             mode = rng.choice(["reactive", "reactive", "absolute"])
             if mode == "reactive":
                 responders.append({"port": port, "hex": data.hex(), "delay": rng.choice([0.0, G.TICK, 0.125, 0.4, 0.5 - G.EPS, 0.5, 0.6, 1.2]),
@@ -218,6 +234,9 @@ def execute(sc: dict) -> dict:
         probes["c18.duplicate"] = 1
     if any("," in c["name"] for c in expected_must):
         probes["c18.comma_in_name"] = 1
+    ml = sorted(must)
+    if any(a != b and a[0] == b[0] and sum(x == y for x, y in zip(a[1:], b[1:])) >= 2 for a in ml for b in ml):
+        probes["c18.consoles_sharing_fields"] = 1
     if {c["model"] for c in expected_must} == {"AIRTOUCH_4", "AIRTOUCH_5"}:
         probes["c18.both_generations"] = 1
     if not V:
